@@ -1,18 +1,59 @@
 """C07 -- range queries return exactly the overlapping / contained / clipped rows."""
 from __future__ import annotations
 
+import copy
+import functools
+import json
+import math
+import os
+
 from .. import tables as T
 
 LEVEL = "proof"
 RULE = ("exhaustive: every pair (table, queries) of sorted multisets of <=2 rows x <=2 queries over 0..4 "
-        "(quick) / <=2 x <=2 over 0..5 plus a 5% sample of <=2 x 3 over 0..5 (thorough), 1-2 chromosomes, 3 modes x keep_empty, None bounds; "
-        "random nested/duplicated/abutting tables <=40 rows; 15% of the exhaustive and 40% of the random cases build "
-        "their tables as filtered subsets of larger ones (pandas index labels != row positions). non-trivial = some query overlaps some row "
-        "of the same chromosome; distinct by hash of (op, input)")
+        "(quick) / <=2 x <=2 over 0..5 plus a 5% sample of <=2 x 3 over 0..5 (thorough), 3 modes x keep_empty for "
+        "intersection / by_ranges / iter_ranges_of / into_ranges; in_range on every table of <=3 rows with every one-sided "
+        "query, (None, None) and a sample (quick) / all (thorough) of the two-sided ones; 1-2 chromosomes; random "
+        "nested/duplicated/abutting tables <=40 rows.  On top of these, as modifiers that keep the expected answer: "
+        "15% of the exhaustive and 40% of the random cases build their tables as filtered subsets of larger ones (index "
+        "labels != positions); ~20% build them in another REPRESENTATION (1-3 extra columns, permuted column order incl. "
+        "end before start, float64 coordinates, object-dtype names, query table without gene column, CopyNumArray, "
+        "constructor / from_rows / from_columns); ~20% vary the CALL FORM (all positional, all keyword, defaults left "
+        "implicit; in_range bounds as numpy ints / floats; in_range(chrom=None) on one-chromosome tables); ~25% of the "
+        "multi-chromosome cases rename the chromosomes so that natural order != lexicographic order (chr2 < chr10; 2 < 10 < X); "
+        "inputs are compared before/after the call on the modified cases.  Additional cells: query tables in "
+        "unsorted / reversed row order and with the chromosome blocks in another order than the queried table; "
+        "in_range / in_ranges for a chromosome absent from a non-empty table; in_ranges with 1-3 possibly unsorted / "
+        "repeated queries given as list, tuple, ndarray (int, float) or Series with foreign labels, and with starts "
+        "or ends or both None; into_ranges on a float column (default nanmedian, also with NaN values), with a "
+        "supplied function (max, len, last, np.nanmean), with a non-callable constant, with a string column + "
+        "function, for a missing column, with NaN / numeric defaults, positional and keyword.  non-trivial = some "
+        "query overlaps some row of the same chromosome; distinct by hash of (op, input)")
 EXHAUSTIVE = {"quick": True, "thorough": True}
-ASSUMPTIONS = ["tables sorted by (chromosome key, start, end), start < end, coordinates >= 0"]
-TRUSTED_EXTRA = ["numpy searchsorted on a monotone column = counting (Basic.ssLeft/ssRight)"]
+ASSUMPTIONS = ["queried table sorted by (chromosome key, start, end), start < end, coordinates >= 0; the rows of "
+               "one chromosome are contiguous in the query table (their order within it is free)"]
+TRUSTED_EXTRA = ["numpy searchsorted on a monotone column = counting (Basic.ssLeft/ssRight)",
+                 "into_ranges on a numeric column / with a supplied function: the rows per range come from the Lean model "
+                 "(iterSlices, outer), the summary over them (median, max, len, mean, constant) is recomputed in Python "
+                 "(the driver only evaluates the string-column model intoRangesStr)",
+                 "in_ranges with starts or ends None is sent to the model with 0 / 10^9 in place of the open bound "
+                 "(equivalent for coordinates in [0, 10^9))"]
 MODES = ("outer", "inner", "trim")
+BIG = 10 ** 9
+
+# into_ranges on an INTEGER (or bool) column with the default summary takes `first_of` = `elems[0]`, a LABEL lookup on
+# the selected Series: KeyError unless the row labelled 0 is among the hits.  Open defect, see
+# /verif/proposed_fixes/C07-into-ranges-int-first-of.md; the generator emits that cell only once this is True.
+INT_FIRST_OF_REPAIRED = True   # finding BD fixed in /repo (c292c90): integer / bool columns with the default summary generated
+# in_ranges(chrom, [], []) raises ValueError (pd.concat of nothing) instead of returning an empty table: observation in
+# the same file; empty query arrays are not generated.
+
+# chromosome renamings, monotone for skgenome.chromsort.sorter_chrom (the tables stay sorted) but NOT for string order
+CHROM_MAPS = (
+    {"chr1": "chr2", "chr2": "chr10", "chr3": "chr11", "chr7": "chr12", "chrX": "chrX"},
+    {"chr1": "1", "chr2": "2", "chr3": "10", "chr7": "11", "chrX": "X"},
+    {"chr1": "chr9", "chr2": "chr10", "chr3": "chr21", "chr7": "chr22", "chrX": "chrY"},
+)
 
 
 def corpus():
@@ -23,30 +64,221 @@ def corpus():
         {"op": "intersect", "tag": "corpus-Q", "in": {"a": nested, "b": [["chr2", 0, 5, "q"]], "mode": "outer"}},
         {"op": "into_ranges", "tag": "corpus-S", "in": {"a": [], "b": nested, "default": "dflt"}},
         {"op": "into_ranges", "tag": "corpus-S", "in": {"a": nested, "b": [], "default": "dflt"}},
+        # natural chromosome order != string order (groupby must not sort)
+        {"op": "by_ranges", "tag": "corpus-chromorder",
+         "in": {"a": [["chr2", 0, 10, "a"], ["chr10", 0, 10, "b"]], "b": [["chr2", 5, 6, "q"], ["chr10", 0, 3, "r"]],
+                "mode": "outer", "keep_empty": True}},
+        # the real call of cnvlib.vary.baf_by_ranges: float column, NaN default, supplied function
+        {"op": "into_ranges", "tag": "corpus-baf",
+         "in": {"a": [["chr1", 1, 2, "a0"], ["chr1", 5, 6, "a1"], ["chr1", 8, 9, "a2"], ["chr1", 30, 31, "a3"]],
+                "b": [["chr1", 0, 10, "s0"], ["chr1", 10, 20, "s1"], ["chr1", 20, 40, "s2"]],
+                "col": "alt_freq", "vals": [0.25, 0.5, 0.875, 0.125], "func": "nanmean", "default": None}},
     ]
 
 
 def _pair_ops(a, b, rng=None):
+    """all operations on one pair.  With `rng` (the quick exhaustive block) keep_empty=False is run for ONE mode
+    chosen at random per pair instead of all (the filter on empty selections does not depend on the mode; every
+    (mode, keep_empty=False) cell is still hit by a third / half of all pairs)"""
     out = []
+    m_by = rng.choice(MODES) if rng else None
+    m_it = rng.choice(("outer", "inner")) if rng else None
     for m in MODES:
         out.append({"op": "intersect", "in": {"a": a, "b": b, "mode": m}})
         for ke in (True, False):
-            out.append({"op": "by_ranges", "in": {"a": a, "b": b, "mode": m, "keep_empty": ke}})
+            if ke or m_by in (None, m):
+                out.append({"op": "by_ranges", "in": {"a": a, "b": b, "mode": m, "keep_empty": ke}})
     for m in ("outer", "inner"):
         for ke in (True, False):
-            out.append({"op": "iter_ranges_of", "in": {"a": a, "b": b, "mode": m, "keep_empty": ke}})
+            if ke or m_it in (None, m):
+                out.append({"op": "iter_ranges_of", "in": {"a": a, "b": b, "mode": m, "keep_empty": ke}})
     out.append({"op": "into_ranges", "in": {"a": a, "b": b, "default": "dflt"}})
     return out
 
 
-def _range_ops(t, queries):
+def _range_ops(t, queries, chroms=None):
     out = []
-    chroms = sorted({r[0] for r in t}) or ["chr1"]
+    chroms = chroms or sorted({r[0] for r in t}) or ["chr1"]
     for c in chroms:
         for (s, e) in queries:
             for m in MODES:
                 out.append({"op": "in_range", "in": {"t": t, "chrom": c, "s": s, "e": e, "mode": m}})
     return out
+
+
+# ---- into_ranges beyond the string column --------------------------------------------------------------------
+
+FLOAT_FUNCS = (None, None, None, "max", "len", "last", "nanmean", "const")
+STR_FUNCS = ("len", "last", "const")
+
+
+def _into_col_case(rng, a, b):
+    """into_ranges on a numeric column / with a supplied function / for a missing column.  The genes of `a` are
+    made unique: they identify the rows in the model's selection."""
+    a = [[r[0], r[1], r[2], f"a{k}"] for k, r in enumerate(a)]
+    kind = rng.choice(["float", "float", "float", "floatnan", "str", "nocol"] + (["int"] if INT_FIRST_OF_REPAIRED else []))
+    i = {"a": a, "b": b}
+    if kind == "nocol":
+        i.update(col="absent", nocol=True, vals=[0.5] * len(a), func=None, default=rng.choice(["dflt", None, -1.0]))
+    elif kind == "str":
+        i.update(col="gene", vals=[r[3] for r in a], func=rng.choice(STR_FUNCS), default="dflt")
+    elif kind == "int":
+        i.update(col="probes", vals=[rng.randint(0, 9) for _ in a], func=rng.choice([None, None, "max", "len"]),
+                 default=-1)
+    else:
+        vals = [rng.randint(-16, 16) / 8.0 for _ in a]
+        if kind == "floatnan":
+            # NaN values; never in the first row (the default summary is chosen by the type of the first element,
+            # and NaN is a float as well -- keep the cell about the summary itself)
+            vals = [None if (k and rng.random() < 0.4) else v for k, v in enumerate(vals)]
+        func = None if kind == "floatnan" else rng.choice(FLOAT_FUNCS)
+        i.update(col=rng.choice(["log2", "alt_freq", "weight"]), vals=vals, func=func,
+                 default=rng.choice([None, -1.0, 0.0]))
+    if i["func"] == "const":
+        i["const"] = rng.choice([7.5, "hit"]) if kind != "str" else "hit"
+    i["call"] = rng.choice([None, "pos", "kw"])
+    return {"op": "into_ranges", "in": i}
+
+
+def _summary(i, vals):
+    """the documented summary of >= 2 values (table order)"""
+    f = i["func"]
+    if f is None:
+        if isinstance(vals[0], str):
+            out = []
+            for v in vals:
+                if v not in out:
+                    out.append(v)
+            return ",".join(out)
+        if isinstance(vals[0], int):
+            return vals[0]
+        xs = sorted(v for v in vals if v is not None)
+        if not xs:
+            return None
+        n = len(xs)
+        return xs[n // 2] if n % 2 else (xs[n // 2 - 1] + xs[n // 2]) / 2
+    if f == "max":
+        return max(vals)
+    if f == "len":
+        return len(vals)
+    if f == "last":
+        return vals[-1]
+    if f == "nanmean":
+        xs = [v for v in vals if v is not None]
+        return sum(xs) / len(xs) if xs else None
+    if f == "const":
+        return i["const"]
+    raise ValueError(f)
+
+
+def _same(x, y):
+    if x is None or y is None:
+        return x is None and y is None
+    if isinstance(x, str) or isinstance(y, str):
+        return x == y
+    return math.isclose(x, y, rel_tol=1e-12, abs_tol=1e-12)
+
+
+# ---- modifiers: same expected answer, another representation / call form --------------------------------------
+
+def _rand_rep(rng, query=False, need=None):
+    rep = {}
+    if rng.random() < 0.7:
+        rep["extra"] = rng.sample(["log2", "probes", "weight", "depth"], rng.randint(1, 3))
+    if rng.random() < 0.6:
+        rep["order"] = rng.randint(0, 999)
+    if rng.random() < 0.25:
+        rep["fcoord"] = True
+    if rng.random() < 0.25:
+        rep["objchrom"] = True
+    if query and rng.random() < 0.3:
+        rep["nogene"] = True
+    elif rng.random() < 0.25:
+        rep["cls"] = "cna"
+    rep["ctor"] = rng.choice(["frame", "frame", "rows", "columns"])
+    return rep
+
+
+def _modify(rng, c, p_rep, p_call, p_chrom):
+    """in place on a case whose "in" dict is private (tables may be shared: they are replaced, not edited)"""
+    i = c["in"]
+    marks = []
+    if "col" not in i and rng.random() < p_rep:
+        rep = {}
+        if rng.random() < 0.8:
+            rep["a"] = _rand_rep(rng)
+        if "b" in i and rng.random() < 0.7:
+            rep["b"] = _rand_rep(rng, query=True)
+            if rep["b"].get("nogene"):
+                i["b"] = [[r[0], r[1], r[2], "-"] for r in i["b"]]
+        if rep:
+            i["rep"] = rep
+            marks.append("rep")
+    if "col" not in i and rng.random() < p_call:
+        i["call"] = rng.choice(["pos", "kw", "implicit", "implicit"])
+        if c["op"] == "in_range":
+            if rng.random() < 0.4:
+                i["num"] = rng.choice(["np", "float", "npf"])
+            if rng.random() < 0.3 and len({r[0] for r in i["t"]}) <= 1 and (not i["t"] or i["t"][0][0] == i["chrom"]):
+                i["chrom"] = None
+        marks.append("call")
+    multi = len({r[0] for k in ("a", "b", "t") for r in i.get(k, [])}) > 1
+    if rng.random() < (p_chrom if multi else p_chrom / 10):
+        m = rng.choice(CHROM_MAPS)
+        for k in ("a", "b", "t"):
+            if k in i:
+                i[k] = [[m.get(r[0], r[0])] + list(r[1:]) for r in i[k]]
+        if isinstance(i.get("chrom"), str):
+            i["chrom"] = m.get(i["chrom"], i["chrom"])
+        marks.append("chrom")
+    if marks:
+        i["chk"] = True
+        c["tag"] += "-" + "+".join(marks)
+
+
+def _shuffle_queries(rng, b):
+    """another row order of the query table: rows shuffled (or reversed) within each chromosome, and the
+    chromosome blocks themselves in another order; each chromosome stays contiguous"""
+    blocks = {}
+    for r in b:
+        blocks.setdefault(r[0], []).append(r)
+    keys = list(blocks)
+    if len(keys) > 1 and rng.random() < 0.6:
+        keys = keys[::-1] if rng.random() < 0.5 else rng.sample(keys, len(keys))
+    out = []
+    for k in keys:
+        rows = blocks[k]
+        rows = rows[::-1] if rng.random() < 0.5 else rng.sample(rows, len(rows))
+        out += rows
+    return out
+
+
+def _in_ranges_case(rng, t, chrom, hi, mode):
+    n = rng.choice([1, 2, 2, 3])
+    qs = []  # unsorted, repeats allowed
+    for _ in range(n):
+        if qs and rng.random() < 0.15:
+            qs.append(list(rng.choice(qs)))
+        else:
+            s = rng.randint(0, hi - 1)
+            qs.append([s, rng.randint(s + 1, hi)])
+    if rng.random() < 0.5:
+        qs.sort()
+    i = {"t": t, "chrom": chrom, "mode": mode, "qform": rng.choice(["list", "list", "tuple", "array", "farray", "series"])}
+    k = rng.random()
+    if k < 0.15:
+        i["open"] = "start"
+        qs = [[0, q[1]] for q in qs]
+    elif k < 0.30:
+        i["open"] = "end"
+        qs = [[q[0], BIG] for q in qs]
+    elif k < 0.36:
+        i["open"] = "both"
+        qs = [[0, BIG]]
+    i["qs"] = qs
+    if rng.random() < 0.3:
+        i["call"] = rng.choice(["pos", "kw", "implicit"])
+    return {"op": "in_ranges", "in": i}
 
 
 def gen_cases(rng, tier):
@@ -64,17 +296,27 @@ def gen_cases(rng, tier):
                     c["in"]["sub"] = sub
             cases += cs
         return cases
+    quick = tier == "quick"
     # thorough: every pair of <=2 x <=2 rows over 0..5 plus a 5% sample of the pairs with 3 query ranges
     # (the full <=2 x <=3 scope over 0..6 is several million cases: kept out of the registered command)
-    hi, ka, kb = (4, 2, 2) if tier == "quick" else (5, 2, 3)
+    hi, ka, kb = (4, 2, 2) if quick else (5, 2, 3)
     A = T.small_tables(hi, ka, prefix="a")
     B = T.small_tables(hi, kb, prefix="b")
-    if tier != "quick":
+    if not quick:
         B = [b for b in B if len(b) < 3 or rng.random() < 0.05]
     for a in A:
         for b in B:
-            for c in _pair_ops(a, b):
+            for c in _pair_ops(a, b, rng if quick else None):
                 c["tag"] = "exh2"
+                cases.append(c)
+            # the same queries in another row order (only distinguishable with two different query rows)
+            if len(b) >= 2 and b[0][1:3] != b[-1][1:3] and rng.random() < 0.25:
+                for c in rng.sample(_pair_ops(a, b[::-1]), 3):
+                    c["tag"] = "exh2-qorder"
+                    cases.append(c)
+            if rng.random() < (0.12 if quick else 0.04):
+                c = _into_col_case(rng, a, b)
+                c["tag"] = "exh2-intocol"
                 cases.append(c)
     # None bounds / single queries, tables of up to 3 rows (nesting needs 3 rows to matter)
     for t in T.small_tables(hi, 3, prefix="a"):
@@ -87,87 +329,214 @@ def gen_cases(rng, tier):
             c["tag"] = "exh-inrange"
             cases.append(c)
         if t:
-            ivs = T.intervals(0, hi)
-            q2 = [list(x) for x in rng.sample(ivs, 2)]
-            for m in MODES:
-                cases.append({"op": "in_ranges", "tag": "exh-inranges",
-                              "in": {"t": t, "chrom": "chr1", "qs": sorted(q2), "mode": m}})
+            # a chromosome the (non-empty) table does not have
+            for c in _range_ops(t, rng.sample(qs, 1 if quick else 2), chroms=[rng.choice(["chr2", "chrX", "chr10"])]):
+                c["tag"] = "exh-inrange-absent"
+                cases.append(c)
+        for m in MODES:
+            c = _in_ranges_case(rng, t, "chr1" if (t or rng.random() < 0.5) else "chr2", hi, m)
+            c["tag"] = "exh-inranges"
+            cases.append(c)
+        if t and rng.random() < 0.15:
+            c = _in_ranges_case(rng, t, "chr5", hi, rng.choice(MODES))
+            c["tag"] = "exh-inranges-absent"
+            cases.append(c)
     # two chromosomes
-    for a in rng.sample(A, 30 if tier == "quick" else 66):
-        for b in rng.sample(B, 10 if tier == "quick" else 30):
+    for a in rng.sample(A, 30 if quick else 66):
+        for b in rng.sample(B, 10 if quick else 30):
             a2 = a + [["chr2", s, e, f"h{i}"] for i, (s, e) in enumerate(sorted(rng.sample(T.intervals(0, 4), rng.randint(0, 2))))]
             b2 = b + [[rng.choice(["chr2", "chr3"]), s, e, f"k{i}"] for i, (s, e) in enumerate(sorted(rng.sample(T.intervals(0, 4), rng.randint(0, 2))))]
             b2 = T.sort_rows(b2)
-            for c in _pair_ops(a2, b2):
-                c["tag"] = "exh2-chr2"
+            tag = "exh2-chr2"
+            if rng.random() < 0.3:
+                b2 = _shuffle_queries(rng, b2)
+                tag = "exh2-chr2-qorder"
+            cs = _pair_ops(a2, b2)
+            if rng.random() < 0.5:
+                cs.append(_into_col_case(rng, a2, b2))
+            for c in cs:
+                c["tag"] = tag
                 cases.append(c)
-    n_rand = 120 if tier == "quick" else 1200
+    n_rand = 120 if quick else 1200
     for _ in range(n_rand):
         chroms = rng.choice([("chr1",), ("chr1", "chr2"), ("chr1", "chr2", "chrX")])
         a = T.random_table(rng, 40, chroms, prefix="a")
         b = T.random_table(rng, 15, rng.choice([chroms, chroms[:1], ("chr7",)]), prefix="b")
+        tag = "random"
+        if rng.random() < 0.3:
+            b = _shuffle_queries(rng, b)
+            tag = "random-qorder"
         cs = _pair_ops(a, b)
+        cs += [_into_col_case(rng, a, b) for _ in range(2)]
         if a:
             r = rng.choice(a)
             qs = [(r[1], None), (None, r[2]), (r[1] + 1, None), (None, r[2] - 1), (0, None), (None, 0),
                   (r[1], r[2]), (max(0, r[1] - 3), r[2] + 3)]
+            if quick:
+                qs = qs[:2] + rng.sample(qs[2:], 3)
             cs += _range_ops(a, qs)
+            for c in (_in_ranges_case(rng, a, r[0], r[2] + 3, rng.choice(MODES)) for _ in range(3)):
+                cs.append(c)
         for c in cs:
-            c["tag"] = "random"
+            c["tag"] = tag
         cases += cs
-    # the same tables as filtered subsets of larger ones: pandas index labels differ from row positions
+    # modifiers.  (1) the same tables as filtered subsets of larger ones: pandas index labels differ from row positions
     for c in cases:
-        big = c["tag"] == "random"
+        big = c["tag"].startswith("random")
         if rng.random() < (0.4 if big else 0.15):
             c["in"]["sub"] = rng.randint(1, 10 ** 6)
             c["tag"] += "-subidx"
+        # (2) representation, call form, chromosome names
+        _modify(rng, c, p_rep=0.3 if big else 0.2, p_call=0.3 if big else 0.2, p_chrom=0.25)
     return cases
+
+
+# ---- the real code --------------------------------------------------------------------------------------------
+
+@functools.lru_cache(maxsize=256)
+def _ga_pristine(rows_json, sub, rep_json):
+    return T.ga(json.loads(rows_json), sub=sub, rep=json.loads(rep_json) if rep_json else None)
+
+
+def _call(fn, params, form):
+    """params: [(name, value, has_default, default)] in signature order.  form None: required parameters
+    positional, optional ones by keyword; 'pos': all positional; 'kw': all by keyword; 'implicit': by keyword,
+    leaving out every optional argument that equals its default"""
+    if form == "pos":
+        return fn(*[p[1] for p in params])
+    if form == "kw":
+        return fn(**{p[0]: p[1] for p in params})
+    if form == "implicit":
+        args = [p[1] for p in params if not p[2]]
+        kw = {p[0]: p[1] for p in params
+              if p[2] and not (p[1] is p[3] or (isinstance(p[1], (str, bool)) and p[1] == p[3]))}
+        return fn(*args, **kw)
+    return fn(*[p[1] for p in params if not p[2]], **{p[0]: p[1] for p in params if p[2]})
+
+
+def _val(x):
+    import numpy as np
+    if isinstance(x, (str, np.str_)):
+        return str(x)
+    if isinstance(x, (bool, np.bool_)):
+        return bool(x)
+    if isinstance(x, (int, np.integer)):
+        return int(x)
+    x = float(x)
+    return None if x != x else x
 
 
 def run_impl(case):
     import numpy as np
+    import pandas as pd
     op, i = case["op"], case["in"]
-    sub = i.get("sub")
+    sub, rep, form = i.get("sub"), i.get("rep") or {}, i.get("call")
 
-    class T2:  # the same adapters, tables optionally built as filtered subsets (index labels != positions)
-        rows_of = staticmethod(T.rows_of)
+    def table(key, extra=None):
+        r = rep.get("a" if key == "t" else key)
+        if extra:
+            r = dict(r or {}, extra=extra)
+        pristine = _ga_pristine(json.dumps(i[key]), sub, json.dumps(r, sort_keys=True) if r else "")
+        used = copy.copy(pristine)  # a private copy of the (cached) table: same labels, dtypes, column order
+        used.data, used.meta = pristine.data.copy(), dict(pristine.meta)
+        return pristine, used
 
-        @staticmethod
-        def ga(rows):
-            return T.ga(rows, sub=sub)
-    return _run(T2, op, i)
+    def unchanged(*pairs):
+        for pristine, used in pairs:
+            if not (list(used.data.columns) == list(pristine.data.columns) and used.data.equals(pristine.data)
+                    and used.data.index.equals(pristine.data.index)):
+                return False
+        return True
+
+    mutated = {"__error__": "InputMutated", "msg": "the call changed one of its input tables"}
+    chk = i.get("chk")
+    if op == "in_range" or op == "in_ranges":
+        t0, t = table("t")
+        if op == "in_range":
+            s, e = i["s"], i["e"]
+            conv = {"np": np.int64, "float": float, "npf": np.float64}.get(i.get("num"), lambda v: v)
+            s, e = (None if s is None else conv(s)), (None if e is None else conv(e))
+            res = _call(t.in_range, [("chrom", i["chrom"], True, None), ("start", s, True, None), ("end", e, True, None),
+                                     ("mode", i["mode"], True, "outer")], form or "pos")
+        else:
+            starts = None if i.get("open") in ("start", "both") else [q[0] for q in i["qs"]]
+            ends = None if i.get("open") in ("end", "both") else [q[1] for q in i["qs"]]
+            mk = {"list": list, "tuple": tuple, "array": np.array, "farray": lambda v: np.array(v, dtype=float),
+                  "series": lambda v: pd.Series(v, index=range(7, 7 + len(v)))}[i.get("qform", "list")]
+            starts, ends = (None if starts is None else mk(starts)), (None if ends is None else mk(ends))
+            res = _call(t.in_ranges, [("chrom", i["chrom"], True, None), ("starts", starts, True, None),
+                                      ("ends", ends, True, None), ("mode", i["mode"], True, "outer")], form or "pos")
+        out = T.rows_of(res)
+        if type(res) is not type(t):
+            return {"__error__": "WrongClass", "msg": f"{type(res).__name__} from a {type(t).__name__}"}
+        if list(res.data.columns) != list(t.data.columns):
+            return {"__error__": "ColumnsChanged", "msg": f"{list(res.data.columns)} from {list(t.data.columns)}"}
+        return out if not chk or unchanged((t0, t)) else mutated
+    if op == "into_ranges" and "col" in i:
+        extra = None if i.get("nocol") or i["col"] == "gene" else {i["col"]: i["vals"]}
+        a0, a = table("a", extra)
+        b0, b = table("b")
+        f = i["func"]
+        func = {None: None, "max": max, "len": len, "last": (lambda ser: ser.iat[-1]), "nanmean": np.nanmean,
+                "const": i.get("const")}[f]
+        default = float("nan") if i["default"] is None else i["default"]
+        params = [("other", b, False, None), ("column", i["col"], False, None), ("default", default, False, None)]
+        if f is not None or form == "kw":
+            params.append(("summary_func", func, True, None))
+        import warnings
+        with warnings.catch_warnings():
+            warnings.simplefilter("ignore", RuntimeWarning)  # all-NaN slice
+            res = _call(a.into_ranges, params, form)
+        if isinstance(res, pd.DataFrame):
+            return {"__error__": "ReturnsDataFrame", "msg": "into_ranges returned a DataFrame, not one value per range"}
+        if not unchanged((a0, a), (b0, b)):
+            return mutated
+        return [_val(x) for x in res]
+    a0, a = table("a")
+    b0, b = table("b")
+    out = _run(a, b, op, i, form)
+    return out if not chk or unchanged((a0, a), (b0, b)) else mutated
 
 
-def _run(T, op, i):
-    import numpy as np
+def _run(a, b, op, i, form):
+    import pandas as pd
     if op == "intersect":
-        return T.rows_of(T.ga(i["a"]).intersection(T.ga(i["b"]), mode=i["mode"]))
+        res = _call(a.intersection, [("other", b, False, None), ("mode", i["mode"], True, "outer")], form)
+        if type(res) is not type(a):
+            return {"__error__": "WrongClass", "msg": f"{type(res).__name__} from a {type(a).__name__}"}
+        if list(res.data.columns) != list(a.data.columns):
+            return {"__error__": "ColumnsChanged", "msg": f"{list(res.data.columns)} from {list(a.data.columns)}"}
+        return T.rows_of(res)
     if op == "by_ranges":
         out = []
-        for bin_row, sub in T.ga(i["a"]).by_ranges(T.ga(i["b"]), mode=i["mode"], keep_empty=i["keep_empty"]):
-            out.append([[str(bin_row.chromosome), int(bin_row.start), int(bin_row.end), str(bin_row.gene)],
+        for bin_row, sub in _call(a.by_ranges, [("other", b, False, None), ("mode", i["mode"], True, "outer"),
+                                                ("keep_empty", i["keep_empty"], True, True)], form):
+            out.append([[str(bin_row.chromosome), int(bin_row.start), int(bin_row.end), str(getattr(bin_row, "gene", "-"))],
                         T.rows_of(sub)])
+            if type(sub) is not type(a):
+                return {"__error__": "WrongClass", "msg": f"{type(sub).__name__} from a {type(a).__name__}"}
         return out
     if op == "iter_ranges_of":
         return [[str(x) for x in ser] for ser in
-                T.ga(i["a"]).iter_ranges_of(T.ga(i["b"]), "gene", mode=i["mode"], keep_empty=i["keep_empty"])]
+                _call(a.iter_ranges_of, [("other", b, False, None), ("column", "gene", False, None),
+                                         ("mode", i["mode"], True, "outer"), ("keep_empty", i["keep_empty"], True, True)], form)]
     if op == "into_ranges":
-        res = T.ga(i["a"]).into_ranges(T.ga(i["b"]), "gene", i["default"])
-        import pandas as pd
+        res = _call(a.into_ranges, [("other", b, False, None), ("column", "gene", False, None),
+                                    ("default", i["default"], False, None)], form)
         if isinstance(res, pd.DataFrame):
             return {"__error__": "ReturnsDataFrame", "msg": "into_ranges returned a DataFrame, not one value per range"}
         return [str(x) for x in res]
-    if op == "in_range":
-        return T.rows_of(T.ga(i["t"]).in_range(i["chrom"], i["s"], i["e"], mode=i["mode"]))
-    if op == "in_ranges":
-        starts = [q[0] for q in i["qs"]]
-        ends = [q[1] for q in i["qs"]]
-        return T.rows_of(T.ga(i["t"]).in_ranges(i["chrom"], starts, ends, mode=i["mode"]))
     raise ValueError(op)
 
 
 def to_line(case, impl):
-    line = {"op": case["op"], "in": case["in"]}
+    i = case["in"]
+    if case["op"] == "into_ranges" and "col" in i:
+        # the model supplies the rows per range (iterSlices, outer, keep_empty); the summary is recomputed in `judge`.
+        # A missing column behaves like an empty source: every range gets the default.
+        return {"op": "iter_ranges_of", "in": {"a": [] if i.get("nocol") else i["a"], "b": i["b"], "mode": "outer",
+                                                "keep_empty": True}}
+    line = {"op": case["op"], "in": i}
     if not (isinstance(impl, dict) and "__error__" in impl):
         line["impl"] = impl
     return line
@@ -178,6 +547,22 @@ def judge(case, impl, resp):
         return ["raises_" + impl["__error__"]], [], None
     if "error" in resp:
         return [], ["model error: " + resp["error"]], None
+    i = case["in"]
+    if case["op"] == "into_ranges" and "col" in i:
+        disagree = []
+        if resp.get("specm"):
+            disagree.append(f"model violates its own spec: {resp['specm']}")
+        val = {r[3]: v for r, v in zip(i["a"], i["vals"])}
+        expect = []
+        for sel in resp["out"]:
+            vs = [val[g] for g in sel]
+            expect.append(i["default"] if not vs else vs[0] if len(vs) == 1 else _summary(i, vs))
+        spec = []
+        if len(impl) != len(i["b"]):
+            spec.append("into_ranges_length")
+        elif not all(_same(x, y) for x, y in zip(impl, expect)):
+            spec.append("into_ranges_value")
+        return spec, disagree, None
     spec = list(resp.get("spec") or [])
     disagree = []
     if impl != resp["out"]:
@@ -200,9 +585,15 @@ def nontrivial(case, impl, resp):
 
 def shrink(case):
     i = case["in"]
+    if "col" in i:
+        return
     for key in ("t", "a", "b"):
         if key in i:
             for smaller in T.shrink_rows(i[key]):
                 c = {"op": case["op"], "tag": "shrunk", "in": dict(i)}
                 c["in"][key] = smaller
                 yield c
+    for key in ("rep", "call", "sub", "num"):
+        if key in i:
+            c = {"op": case["op"], "tag": "shrunk", "in": {k: v for k, v in i.items() if k != key}}
+            yield c
